@@ -61,8 +61,11 @@ class Rule:
         return cond
 
     def done(self):
-        if self.instances < self.floor and not self.findings:
-            raise AnalysisError('rule %s went vacuous: %d instances matched, at least %d were confirmed by hand '
+        # `floor` = number of instances confirmed by hand on the pinned tree.  A refactoring may legitimately remove some
+        # sites (the remaining ones are still checked), so only a collapse to less than half of them is treated as "the
+        # rule no longer finds its anchors" - which is an analysis error, never a pass and never a violation.
+        if self.instances < max(1, (self.floor + 1) // 2) and not self.findings:
+            raise AnalysisError('rule %s went vacuous: %d instances matched, %d were confirmed by hand '
                                 'on the pinned tree (%s)' % (self.rid, self.instances, self.floor, self.desc))
         self.ctx.rules.append(self)
 
